@@ -21,11 +21,11 @@ St == Tr[tid][l]
 Begin ==
     /\ l <= Len(Tr[tid]) /\ j = 0
     /\ j' = 1
-    /\ asked' = (asked \/ St.op \in {"cdisc", "sdisc", "csendcdisc"})
+    /\ asked' = (asked \/ St.op \in {"cdisc", "sdisc", "csendcdisc", "ssendsdisc", "bothdisc"})
     /\ CASE St.op \in {"csend", "csendcdisc"} -> /\ csent' = csent + Len(St.a.acc)
                                /\ (Len(St.a.acc) > 0 => cup)
                                /\ UNCHANGED <<ssent, crecv, srecv, cup, sup, cconns, sconns, cdiscs, sdiscs>>
-         [] St.op = "ssend" -> /\ ssent' = ssent + Len(St.a.acc)
+         [] St.op \in {"ssend", "ssendsdisc"} -> /\ ssent' = ssent + Len(St.a.acc)
                                /\ (Len(St.a.acc) > 0 => sup)
                                /\ UNCHANGED <<csent, crecv, srecv, cup, sup, cconns, sconns, cdiscs, sdiscs>>
          [] OTHER -> UNCHANGED evars
